@@ -95,6 +95,9 @@ def _shapes(tier, prop=None):
         dict(spec="two_components", modes=["min"]),
         dict(spec="single"), dict(spec="single_unary"),
         dict(spec="chain3", modes=["min"], policy="random", sched_seed=1, interleave_start=True, start_order="rev"),
+        # one sibling's UTIL overtakes the other's / the leaves start before their parents
+        dict(spec="star", modes=["max"], policy="favor:x3", start_order="rev"),
+        dict(spec="triangle", modes=["min"], policy="starve:x1", interleave_start=True, between=2),
     ]
     if prop == "C10" and tier == "quick":
         return [q[1], q[6], q[7]]
